@@ -352,3 +352,61 @@ Example C01_dirs_nonvacuous :
   Resources.e_entry ResourcesProofs.ex_sec 16 = Ok (Resources.EData 24) /\
   Resources.data_bytes ResourcesProofs.ex_sec 24 = Ok {| r_off := 40; r_len := 4 |}.
 Proof. vm_compute. repeat split; reflexivity. Qed.
+
+(* =====================================================================================================
+   9. Checked twins (Model/Checked.v, Proofs/CheckedProofs.v): the raw references that the first-phase models hand
+      out without a reference check.  In a twin every [&*(p as *const T)], [from_raw_parts] and [get_unchecked] is
+      [ref_chk addr len off size align], which is [Fault UBOob] when the reference leaves the buffer and
+      [Fault UBAlign] when its address is not a multiple of align_of::<T>(); the theorems say the twin returns what
+      the model returns, i.e. no such fault is reachable.
+   ===================================================================================================== *)
+From PV.Model Require Import Checked.
+From PV.Proofs Require CheckedProofs.
+
+(* base relocations of a file or mapped view: every &IMAGE_BASE_RELOCATION that IterBlocks::peek dereferences and every
+   &[u16] it builds with from_raw_parts lies inside the directory and is aligned for its type *)
+Theorem C01_reloc_refs_checked : forall v dd r, placed (v_addr v) (v_len v) -> v_len v + 3 < W64 ->
+  ConvertSimSpec.relocs_try_from v dd = Ok r ->
+  blocks_chk (v_addr v + r_off r) (ConvertSimSpec.relocs_data v r) = blocks (ConvertSimSpec.relocs_data v r) /\
+  fold_pairs_chk (v_addr v + r_off r) (ConvertSimSpec.relocs_data v r) = fold_pairs (ConvertSimSpec.relocs_data v r).
+Proof. exact CheckedProofs.view_relocs_chk_eq. Qed.
+Print Assumptions C01_reloc_refs_checked.
+(* any directory handed to BaseRelocs::parse: at a multiple of 4 the walk is the model, elsewhere parse refuses it *)
+Theorem C01_reloc_parse_checked : forall base data, lenN data + 3 < W64 ->
+  reloc_parse_chk base data = if base mod 4 =? 0 then blocks data else Err EMisaligned.
+Proof. exact CheckedProofs.reloc_parse_chk_spec. Qed.
+Print Assumptions C01_reloc_parse_checked.
+(* and the refusal is what keeps the iterator sound: on a misaligned directory with room for one header the first
+   dereference would be through a misaligned reference *)
+Theorem C01_reloc_refs_need_alignment : forall base data, base mod 4 <> 0 -> 8 <= lenN data -> blocks_chk base data = Fault UBAlign.
+Proof. exact CheckedProofs.blocks_chk_misaligned. Qed.
+Print Assumptions C01_reloc_refs_need_alignment.
+
+(* validate_headers: &IMAGE_DOS_HEADER at 0 and &IMAGE_NT_HEADERS at e_lfanew are taken only after the length and
+   alignment tests that make them valid *)
+Theorem C01_header_refs_checked : forall f m, f = fmt32 \/ f = fmt64 -> mem_ok m -> validate_chk f m = validate f m.
+Proof. exact CheckedProofs.validate_chk_eq. Qed.
+Print Assumptions C01_header_refs_checked.
+(* rich_structure() / check_sum: from_raw_parts(image.as_ptr() as *const u32, image.len() / 4) on a validated image *)
+Theorem C01_dword_view_checked : forall f m soi, validate f m = Ok soi -> dword_view_chk m = Ok tt.
+Proof. exact CheckedProofs.dword_view_chk_ok. Qed.
+Print Assumptions C01_dword_view_checked.
+
+(* the casts of the typed read family, relative to the byte slice they were derived from *)
+Theorem C01_typed_refs_checked : forall v byva, placed (v_addr v) (v_len v) ->
+  (forall a size align, rd_chk (sl_of v byva) (v_addr v) a size align = rd (sl_of v byva) a size align) /\
+  (forall a size, rd_copy_chk (sl_of v byva) (v_addr v) a size = rd_copy (sl_of v byva) a size) /\
+  (forall a size, rd_into_chk (sl_of v byva) a size = rd_copy (sl_of v byva) a size) /\
+  (forall a size align n, rd_slice_chk (sl_of v byva) (v_addr v) a size align n = rd_slice (sl_of v byva) a size align n) /\
+  (forall a size align p, 0 < size -> 0 < align -> size mod align = 0 -> v_len v + size < W64 ->
+     rd_slice_f_chk (v_get v) (sl_of v byva) (v_addr v) a size align p = rd_slice_f (v_get v) (sl_of v byva) a size align p) /\
+  (forall a, rd_c_str_chk (v_get v) (sl_of v byva) (v_addr v) a = rd_c_str (v_get v) (sl_of v byva) a) /\
+  (forall a q, rd_c_str (v_get v) (sl_of v byva) a = Ok q -> cstr_len_chk (v_addr v) q = Ok (r_len q - 1)).
+Proof. exact CheckedProofs.view_typed_chk_eq. Qed.
+Print Assumptions C01_typed_refs_checked.
+
+(* the reference check is live: outside, misaligned, fine *)
+Example C01_checked_nonvacuous :
+  ref_chk 4096 100 96 120 4 = Fault UBOob /\ ref_chk 4098 200 0 64 4 = Fault UBAlign /\ ref_chk 4096 200 0 64 4 = Ok tt /\
+  blocks_chk 4098 [0;16;0;0; 12;0;0;0; 5;48; 0;0] = Fault UBAlign.
+Proof. vm_compute. repeat split; reflexivity. Qed.
